@@ -21,6 +21,7 @@ import (
 	"fmt"
 	"os"
 	"runtime"
+	"strconv"
 	"strings"
 	"sync/atomic"
 	"time"
@@ -252,7 +253,16 @@ func runNode(nb *NodeBlock, rounds int) {
 	}
 	t0 := time.Now()
 	defer func() { nodeChildSecs += time.Since(t0).Seconds() }()
+	lastChildNote = ""
 	bad, crash := askChild(&parReq{Node: &nodeReq{Txs: bs, Height: nb.Height, Undo: nb.Undo, Dir: nodeDir}, Rounds: rounds})
+	for _, f := range strings.Fields(lastChildNote) { // the pool's share of the request (pool.go)
+		if kv := strings.SplitN(f, "=", 2); len(kv) == 2 {
+			n, _ := strconv.Atoi(kv[1])
+			for ; n > 0; n-- {
+				r.Hit("pool:" + kv[0])
+			}
+		}
+	}
 	var ser bytes.Buffer
 	for _, b := range bs {
 		ser.Write(serBuilt(b, true))
@@ -265,10 +275,14 @@ func runNode(nb *NodeBlock, rounds int) {
 	rep := map[string]interface{}{"node": nb}
 	what := fmt.Sprintf("block of %d transactions, %d inputs (%d signed by the independent signer over the reference digests, the rest anyone-can-spend) handed to Chain.ProcessBlockTransactions", len(bs), inputs, spends)
 	switch {
+	case crash != "" && strings.Contains(crash, "client/txpool"):
+		r.PropFail("pool-path-crash", what+", then every transaction to txpool.HandleNetTx: "+crash, rep)
 	case crash != "":
 		r.PropFail("node-path-crash", what+": "+crash, rep)
 	case strings.HasPrefix(bad, "harness:"):
 		r.TieFail("node-path-harness", what+": "+bad, rep)
+	case strings.HasPrefix(bad, "pool:"):
+		r.PropFail("pool-path-verdict", bad, rep)
 	case strings.HasPrefix(bad, "cache:"):
 		r.PropFail("node-path-cache", bad, rep)
 	case bad != "":
